@@ -13,11 +13,13 @@ func buildProfile() (lifes, forms, variants []int) {
 	all := []int{kit.LSingleton, kit.LScoped, kit.LTransient}
 	switch vrt.Param("profile", 0) {
 	case 0: // every dependency form on plain identities (cycles, conflicts, missing)
-		return all, []int{kit.IdPlain}, []int{0, 1, 2, 3, 6, 11, 13}
+		return all, []int{kit.IdPlain}, []int{0, 1, 2, 3, 6, 11, 13, 15, 18, 19}
 	case 1: // keyed / group / interface edges
 		return all, []int{kit.IdPlain, kit.IdNamed, kit.IdGroup, kit.IdAs, kit.IdAsGroup}, []int{0, 4, 5, 7, 8, 16}
 	case 2: // initializers and multi-output forms
 		return all, []int{kit.IdPlain, kit.IdVoid, kit.IdVoidErr, kit.IdMulti, kit.IdResObj}, []int{0, 1, 11, 3}
+	case 3: // small: plain edges, optional edge (for n=3 order permutations)
+		return all, []int{kit.IdPlain}, []int{0, 1, 6, 11}
 	}
 	panic("bad profile")
 }
@@ -108,13 +110,16 @@ func H_Build() {
 	missing, _, missingNonSingleton := w.MissingDeps()
 	vrt.Finding("KF-C05-group-cycle", cyc && !cycPlain)
 	vrt.Finding("KF-C07-group-edge", conflict && conflictGroupOnly)
-	vrt.Finding("KF-C08-lazy-missing", missingNonSingleton)
+	_ = missingNonSingleton
+	vrt.Finding("KF-C08-lazy-missing", w.LazyMissing())
 	knownBuildDefects(w)
 
 	c := godi.NewCollection()
 	errs := w.Register(c)
 	vrt.Assume(!addErrs(errs, n))
+	vrt.Limit("C05.nontermination")
 	p, err := c.Build()
+	vrt.Limit("")
 	cls := kit.Class(err)
 	vrt.Trace("cyc=%v conflict=%v missing=%v build=%s", cyc, conflict, missing, cls)
 
